@@ -204,3 +204,49 @@ def exact_det_dev_zero(A):
         D = [[F[i][j] - (m if i == j else 0) for j in range(3)] for i in range(3)]
         out[n] = det3_fraction(D) == 0
     return out
+
+
+def wilkinson_b_vanishes(T):
+    """Input-class predicate of the open finding D23, from an independent replica of the routine's deflation step in exact-ish
+    (float64/longdouble numpy) arithmetic: for the trigonometric root the routine can pick (the extreme deviatoric root, or
+    the middle one when det(dev) = 0 to rounding) and every (tied-)largest pivot row, the deflated 2x2 block
+    [[xx, xy], [xy, yy]] has xx == yy to within 64 eps while xy is not small: the Wilkinson variable b = (xx - yy)/2 vanishes
+    (to rounding), where the routine multiplies its square root by sign(b)."""
+    T = onp.asarray(T, dtype=float)
+    if not onp.all(onp.isfinite(T)):
+        return False
+    T = 0.5 * (T + T.T)
+    nrm = onp.abs(T).sum(axis=1).max()
+    if not nrm > 0:
+        return False
+    D = (T / nrm).astype(onp.longdouble)
+    D = D - (D[0, 0] + D[1, 1] + D[2, 2]) / 3 * onp.eye(3, dtype=onp.longdouble)
+    w = onp.linalg.eigvalsh(D.astype(float)).astype(onp.longdouble)
+    dn = float(onp.abs(D).max())
+    if not dn > 0:
+        return False
+    detD = float(det3_fraction([[D[i][j] for j in range(3)] for i in range(3)]))
+    cands = [w[2] if detD > 0 else w[0]]
+    if abs(detD) <= 1e-13 * dn ** 3:
+        cands = [w[1], w[0], w[2]]
+    for e2 in cands:
+        B = D - e2 * onp.eye(3, dtype=onp.longdouble)
+        kn = (B * B).sum(axis=1)
+        if not kn.max() > 0:
+            continue
+        for p in range(3):
+            if kn[p] < kn.max() * (1 - 1e-12):
+                continue
+            k = B[p]
+            rest = [B[q] - (B[q] @ k) / (k @ k) * k for q in range(3) if q != p]
+            a = rest[0] if (rest[0] @ rest[0]) >= (rest[1] @ rest[1]) else rest[1]
+            aa = a @ a
+            if not aa > 1e-24 * dn * dn:
+                continue
+            xx = (k @ (D @ k)) / (k @ k)
+            yy = (a @ (D @ a)) / aa
+            xy = abs(k @ (D @ a)) / onp.sqrt((k @ k) * aa)
+            b = (xx - yy) / 2
+            if abs(b) <= 64 * EPS * max(abs(xx), abs(yy), xy) and xy > 1e-6 * dn:
+                return True
+    return False
